@@ -317,6 +317,19 @@ Definition updated_matches_fresh (pl : pipeline) (before_warn_free : bool) (a : 
       end
   end.
 
+(* round 5: "exactly the counts that depend on volatile parameters are marked ... also after the program has been
+   merged, cleaned up": per played waveform, some enclosing count of the cleaned-up program is marked volatile iff the
+   scope-free specification says so (Spec.oleafmarks; PLCleanup only: flatten_and_balance unrolls loops, which
+   duplicates waveforms) *)
+Definition marks_ok (p : pt) (vals : list (name * Z)) (V : list name) (pl : pipeline) (t : otree) : bool :=
+  match pl with
+  | PLCleanup => match spec_program p vals V with
+                 | Some (Some st) => list_eqb Bool.eqb (oleafmarks false t) (oleafmarks false st)
+                 | _ => true
+                 end
+  | _ => true
+  end.
+
 Fixpoint spec_tree_steps (p : pt) (vals : list (name * Z)) (V : list name) (pl : pipeline) (bwf : bool)
          (ups : list (list (name * Z))) (after : list otree) (fresh : list tobs) : bool :=
   match ups, after, fresh with
@@ -326,6 +339,9 @@ Fixpoint spec_tree_steps (p : pt) (vals : list (name * Z)) (V : list name) (pl :
       (* instantiation with the new values marks exactly the dependent counts *)
       match pl with PLNone => tobs_eqb f (spec_tobs p vals' V) | _ => true end &&
       updated_matches_fresh pl bwf a f &&
+      (* the marks of the re-instantiated and of the updated cleaned-up program (nothing dropped: all counts > 0) *)
+      match f with TTree ft _ => marks_ok p vals' V pl ft | _ => true end &&
+      (if ocounts_pos a then marks_ok p vals' V pl a else true) &&
       (* volatility was kept (no VolatileModificationWarning): the updated program plays the template's denotation *)
       (if bwf then tree_play_ok p vals' V a else true) &&
       spec_tree_steps p vals' V pl bwf r ar fr
@@ -336,7 +352,7 @@ Definition check_spec_tree p vals V pl ups before after fresh : bool :=
   if negb (forallb (fun us => keys_in us V) ups) then true else
   match pl with PLNone => tobs_eqb before (spec_tobs p vals V) | _ => true end &&
   match before with
-  | TTree bt _ => tree_play_ok p vals V bt && spec_tree_steps p vals V pl (warn_free before) ups after fresh
+  | TTree bt _ => tree_play_ok p vals V bt && marks_ok p vals V pl bt && spec_tree_steps p vals V pl (warn_free before) ups after fresh
   | _ => true
   end.
 
